@@ -784,7 +784,16 @@ impl UndoOperation for DeleteColumn {
             let offset: usize = self.column as usize;
             for (i, ch) in self.deleted_chars.iter().enumerate() {
                 if let Some(ch) = ch {
-                    layer.lines[i].chars.insert(offset, *ch);
+                    // rows are stored lazily and other undo records put back rows that hold the same cells in another
+                    // physical form (fewer rows, shorter rows): the missing cells are invisible ones
+                    if layer.lines.len() <= i {
+                        layer.lines.resize(i + 1, Line::default());
+                    }
+                    let line = &mut layer.lines[i];
+                    if line.chars.len() < offset {
+                        line.chars.resize(offset, AttributedChar::invisible());
+                    }
+                    line.chars.insert(offset, *ch);
                 }
             }
             layer.set_width(layer.get_width() + 1);
